@@ -200,6 +200,10 @@ func withPlaceholders(rng *rand.Rand, e *oracle.Expr) (tmpl *oracle.Expr, args [
 			strArgs[i], strArgs[j] = strArgs[j], strArgs[i]
 		}
 	}
+	// no trailing argument beyond the highest placeholder (surplus arguments are a case of their own in C11)
+	if m := int(oracle.MaxPlaceholder(tmpl)); len(strArgs) > m {
+		strArgs = strArgs[:m]
+	}
 	for _, s := range strArgs {
 		var n int64
 		if _, err := fmt.Sscan(s, &n); err == nil && fmt.Sprint(n) == s && rng.Intn(2) == 0 {
